@@ -241,11 +241,14 @@ gensalt_sha1crypt_rn (unsigned long count,
   const uint8_t *r = rbytes + 4;
   const uint8_t *rlim = rbytes + nrbytes;
   uint8_t *o = output + n;
-  uint8_t *olim = output + n + CRYPT_SHA1_SALT_LENGTH;
-  if (olim + 2 > output + o_size)
-    olim = output + o_size - 2;
+  /* Compare lengths, not pointers: a pointer more than one past the end
+     of rbytes or output must not even be formed.  */
+  size_t osalt = o_size - (size_t)n - 2;
+  if (osalt > CRYPT_SHA1_SALT_LENGTH)
+    osalt = CRYPT_SHA1_SALT_LENGTH;
+  uint8_t *olim = o + osalt;
 
-  for (; r + 3 < rlim && o + 4 < olim; r += 3, o += 4)
+  for (; rlim - r > 3 && olim - o > 4; r += 3, o += 4)
     {
       encbuf = ((((uint32_t)r[0]) << 16) |
                 (((uint32_t)r[1]) <<  8) |
